@@ -4,7 +4,7 @@ from props.filegen import *
 THEOREMS = ["C01_roundtrip", "C01_roundtrip_under_every_schedule", "C03_decrypt_of_any_accepted_file_under_every_schedule", "SRC_loads", "SRC_export"]
 
 
-def run(ck, module=("Properties_C01", "Properties_C01b", "Properties_SrcIO"), theorems=THEOREMS, finish=True):
+def run(ck, module=("Properties_C01", "Properties_C01b", "Properties_SrcIO", "SrcRun5"), theorems=THEOREMS, finish=True):
     ck.prove(module, theorems)
     exe = small_driver(ck)
     env = small_env(ck)
